@@ -184,6 +184,14 @@ func ed25519VerifyGates(c *an.Check) {
 func sigVerifyWithPublicGates(c *an.Check) {
 	ed25519VerifyGates(c)
 	vwp := c.P.Func("peer", "Signature", "VerifyWithPublic")
+	// the verification runs on the caller's key (the one derived from the claimed sender), never on a key the signature
+	// object brings along, and over the signature's own bytes
+	if vwp != nil {
+		st := c.P.NewState(vwp)
+		kv := an.Calls(vwp, fnPubKeyVerify)
+		ok := len(kv) == 1 && an.IsParam(kv[0].Call.Value, 2) && getterOn(st, kv[0].Call.Args[1], "peer", "Signature", "GetSigData")
+		c.Require(ok, "PROVENANCE", "peer.Signature.VerifyWithPublic verifies with the caller's key", vwp, "", len(kv), "pubKey.Verify(body, s.GetSigData()) on the pubKey parameter", "the key that verifies is not (only) the pubKey parameter — e.g. a pub_key embedded in the signature takes precedence: anyone can sign as anyone")
+	}
 	isHT := func(s *an.State, v ssa.Value) bool { return getterOn(s, v, "peer", "Signature", "GetHashType") }
 	c.Gate(an.GateSpec{Construct: "peer.Signature.VerifyWithPublic key-verify call", Fn: vwp,
 		Sink: func(s *an.State, ins ssa.Instruction) bool { return an.IsCallTo(ins, fnPubKeyVerify) },
